@@ -200,6 +200,8 @@ func (c *checkCtx) check() int {
 			bt.Harness = append(bt.Harness, part.Harness...)
 			bt.WallS += part.WallS
 			bt.Restarts += part.Restarts
+			bt.KilledFromOutside += part.KilledFromOutside
+			bt.Recycled += part.Recycled
 			bt.WorkersN = part.WorkersN
 			found := len(part.Harness) > 0
 			for _, r := range part.Results {
@@ -215,7 +217,7 @@ func (c *checkCtx) check() int {
 	} else {
 		bt = runBatch(c.bin(), refBin, c.baseJob(), total, c.Plan.Procs, c.Scratch, "main", timeout)
 	}
-	fmt.Printf("gcsim: %d runs in %.1fs on %d workers (%d restarts)\n", len(bt.Results), bt.WallS, bt.WorkersN, bt.Restarts)
+	fmt.Printf("gcsim: %d runs in %.1fs on %d workers (%d restarts, %d recycled)\n", len(bt.Results), bt.WallS, bt.WorkersN, bt.Restarts, bt.Recycled)
 	ffViolation := false
 	if failFast {
 		for _, r := range bt.Results {
@@ -500,14 +502,14 @@ func (c *checkCtx) crossProcess(bt *batch) *xprocResult {
 					rj.Mode = "ref"
 					rj.Indices = mine
 					rj.RefPath = filepath.Join(c.Scratch, tag+".ref.json")
-					ro := runWorker(c.Build.Worker, &rj, c.Scratch, tag+"-ref", g, 40*time.Minute)
+					ro := runWorkerR(c.Build.Worker, &rj, c.Scratch, tag+"-ref", g, 40*time.Minute)
 					if !ro.Finished {
 						ch <- res{g, ro}
 						return
 					}
 					job.RefPath = rj.RefPath
 				}
-				ch <- res{g, runWorker(c.bin(), &job, c.Scratch, tag, g, 40*time.Minute)}
+				ch <- res{g, runWorkerR(c.bin(), &job, c.Scratch, tag, g, 40*time.Minute)}
 			}(g, part, mine)
 		}
 	}
@@ -693,6 +695,13 @@ func (c *checkCtx) execConfigs(cfgs []simapi.RunConfig, tag string) ([]*simapi.R
 			return out, fmt.Sprintf("replay worker died outside a run (exit %d): %s", wo.ExitCode, short(wo.Stderr, 1500))
 		}
 		idx := *wo.Crashed
+		if wo.Killed {
+			if attempt < 3 {
+				start = idx // again
+				continue
+			}
+			return out, fmt.Sprintf("replay worker killed by SIGKILL repeatedly without a word (out of memory?)")
+		}
 		if wo.ExitCode == 75 || wo.ExitCode == 73 {
 			return out, fmt.Sprintf("harness trouble in replay (exit %d): %s", wo.ExitCode, short(wo.Stderr, 1500))
 		}
